@@ -196,6 +196,13 @@ func genC09(c *Ctx) {
 	for _, p := range s.progs {
 		p.generate()
 	}
+	sequentialOK := true
+	for _, p := range s.progs {
+		sequentialOK = sequentialOK && !(p.nondet && p.explore == "")
+	}
+	if sequentialOK { // a shared table written concurrently would kill the process before the schema is named
+		c09Concurrent(s.progs, 8)
+	}
 	if err := s.build(); err != nil {
 		c.Fail("c09.build", mark("build"), "c09-scratch-build", err.Error())
 		return
@@ -215,14 +222,21 @@ func genC09(c *Ctx) {
 		case p.bldErr != "":
 			c.Fail("c09.build", in, "c09-"+p.kind+"-compile", "generated code does not compile: "+trunc(p.bldErr, 500))
 		}
+		// a fresh process (the compiled scratch driver links the same generators) must produce the same text
+		if p.ok() && !p.nondet {
+			a := s.ask(sx.L(sx.A("gen"), sx.A(p.kind), sx.A(p.pkg), sx.Str(p.text)))
+			if a.K != sx.KBytes || string(a.Bytes) != p.body {
+				p.nondet, p.nondetHow = true, "a fresh process generates different output: "+trunc(a.String(), 120)
+			}
+		}
 		if p.nondet {
 			if p.explore != "" {
 				observe(p, "nondeterministic-output")
 			} else {
-				c.Fail("c09.determinism", in, "c09-"+p.kind+"-nondeterministic", "two runs of the generator on the same schema give different output")
+				c.Fail("c09.determinism", in, "c09-"+p.kind+"-nondeterministic", "the generator's output for this schema is not a function of the schema: "+p.nondetHow)
 			}
 		} else if p.genErr == "" && p.explore == "" {
-			c.Note("c09.determinism", p.kind+"|same-output-3-runs", in)
+			c.Note("c09.determinism", p.kind+"|same-output-interleaved-concurrent-fresh-process", in)
 		}
 	}
 
@@ -666,7 +680,7 @@ func c09Builtin(c *Ctx) {
 				ok = false
 			}
 		}()
-		c09Quiet(func() {
+		tlx.Quiet(func() {
 			out = tlbparser.GenerateVarUintTypes(32) + tlbparser.GenerateConstantInts(64) +
 				tlbparser.GenerateConstantBigInts([]int{128, 256, 257}) + tlbparser.GenerateBitsTypes([]int{80, 96, 128, 256, 264, 320, 352, 512})
 		})
